@@ -44,7 +44,7 @@ pub mod proofs {
 
     /// sv::attr(serde(rename=..)) lands on that handler's variant only
     #[kani::proof]
-    #[kani::unwind(8)]
+    #[kani::unwind(20)]
     fn c17_fx_attr_renamed_variant() {
         use serde::Serialize;
         let x: u64 = kani::any();
@@ -57,7 +57,7 @@ pub mod proofs {
     }
     /// the argument carrying #[serde(default)] may be absent on the wire; every other argument may not
     #[kani::proof]
-    #[kani::unwind(8)]
+    #[kani::unwind(20)]
     fn c17_fx_attr_default_field() {
         use serde::Deserialize;
         let x: u64 = kani::any(); let y: u64 = kani::any();
